@@ -409,6 +409,13 @@ func genExecCaseOpt(t *rapid.T, rec *ev.Recorder, opType ast.Operation, saturate
 	if rapid.IntRange(0, 9).Draw(t, "multi") > 0 {
 		wopt.MinServices = 2
 	}
+	if rapid.IntRange(0, 5).Draw(t, "ifacebias") == 0 {
+		wopt.IfaceBias = true
+		wopt.MinServices = 3
+		if wopt.MaxServices < 3 {
+			wopt.MaxServices = 3
+		}
+	}
 	if opType == ast.Mutation {
 		wopt.ForceMutations = true
 	}
